@@ -163,12 +163,45 @@ func pfDeadClosure(fn *ssa.Function) bool {
 	return false
 }
 
-// pfDeadByFacts: the facts contain a constant condition with the opposite value (`if false {…}`):
-// the block they belong to never executes.
+// pfDeadByFacts: the facts are contradictory, so the block they belong to never executes: a constant
+// condition with the opposite value (`if false {…}`), a boolean Phi all of whose incoming values are
+// the opposite constant, a nil test whose outcome contradicts what the tested value is (a freshly
+// built error known nil, the nil constant known non-nil). Such blocks are what remains of copies of
+// code that the normaliser's tail duplication specialised for one helper return
+// (`err := fmt.Errorf(…); if err != nil { return err }; <rest>`).
 func pfDeadByFacts(fs []Fact) bool {
+	var constOf func(v ssa.Value, d int) (bool, bool)
+	constOf = func(v ssa.Value, d int) (bool, bool) {
+		if cb, ok := constBool(v); ok {
+			return cb, true
+		}
+		ph, isPhi := v.(*ssa.Phi)
+		if !isPhi || d > 3 || len(ph.Edges) == 0 {
+			return false, false
+		}
+		first, ok := constOf(ph.Edges[0], d+1)
+		if !ok {
+			return false, false
+		}
+		for _, e := range ph.Edges[1:] {
+			if cb, ok := constOf(e, d+1); !ok || cb != first {
+				return false, false
+			}
+		}
+		return first, true
+	}
 	for _, f := range fs {
-		if cb, ok := constBool(f.Cond); ok && cb != f.Pol {
+		if cb, ok := constOf(f.Cond, 0); ok && cb != f.Pol {
 			return true
+		}
+		if x, trueMeansNonNil, ok := errNilTest(f.Cond); ok {
+			nonNil := f.Pol == trueMeansNonNil
+			if nonNil && isNilConst(stripConv(x)) {
+				return true
+			}
+			if !nonNil && definitelyNonNil(x) {
+				return true
+			}
 		}
 	}
 	return false
